@@ -92,6 +92,30 @@ def run_families(ctx, prop, name, fams, extra_inv='', filt=None, replay_fn=None)
     return r
 
 
+def run_simulation(ctx, prop, name, fams, num, depth):
+    """Leg B beyond the exhaustive bound: long random behaviours of the same state machine (TLC -simulate), replayed state by state."""
+    from ..tlaparse import parse_simfile
+    r = vmreplay.run_tlc(ctx, name, fams, dump=False, simulate=max(1, num // 16), depth=depth)
+    n = 0
+    for f in r.simfiles:
+        try:
+            beh = parse_simfile(f)
+        except Exception:
+            ctx.skip('unparsable simulation file')
+            continue
+        for _, st in beh:
+            if not st.get('hist'):
+                continue
+            cls = replay_state(ctx, prop, st['fam'], st)
+            ctx.replayed += 1
+            ctx.count(state_key(st), nontrivial=True)
+            if cls is not None:
+                break
+        n += 1
+    ctx.extra['simulated_behaviours'] = ctx.extra.get('simulated_behaviours', 0) + n
+    return n
+
+
 def leg_c(ctx, prop, tests, want=None, name='hook'):
     path, rc, tail = vmtrace.record_pytest(ctx.wd, tests, name=name)
     if not os.path.exists(path):
@@ -141,6 +165,13 @@ def run(ctx):
             fams[name]['depth'] += 1
     run_families(ctx, 'C01', 'core', fams)
     ctx.exhaustive = True
+    # long random programs over the union alphabet (beyond the exhaustive depth)
+    F = vmfam.FAMILIES
+    union = {'union': dict(depth=9 if ctx.quick else 12, maxstack=5, fuel=4,
+                           inits=F['stack']['inits'] + F['adt']['inits'] + F['optlist']['inits'] + F['logic']['inits'] + F['text']['inits'],
+                           alphabet=list(dict.fromkeys(F['stack']['alphabet'] + F['adt']['alphabet'] + F['optlist']['alphabet'] + F['logic']['alphabet'] + F['text']['alphabet']
+                                                       + F['dipstack']['alphabet'][:20])))}
+    run_simulation(ctx, 'C01', 'sim', union, 160 if ctx.quick else 8000, union['union']['depth'] + 1)
     leg_c(ctx, 'C01', REPO_TESTS)
 
 
